@@ -18,14 +18,8 @@ from vlib import common, gen, c06_gen, c06_oracle, c06_tree
 
 PID = "C06"
 
-# Findings reported to the maintainers of the framework but not yet registered in known_findings.json / repaired in
-# the repository: keyed by the exact shape of the input (see props/C06/DEFECTS.md).
-PENDING = {
-    "D7-strtbl-trimmed-entry":
-        "string table on, keep-ws off: a text with leading/trailing blanks that occurs twice is entered in the string "
-        "table with its blanks (sharing the node's buffer) and trimmed in place by parse_text afterwards: the declared "
-        "table length exceeds the table and later offsets are wrong (wbxml_strtbl_initialize / parse_text)",
-}
+# D7 (string-table entry trimmed in place) was repaired in /repo by 6829a7f; vlib/c06_tree.d7_shape only counts how many
+# cases of the former failing shape a run contains (they are ordinary cases now).
 
 
 def _judge(args):
@@ -102,7 +96,8 @@ def run(ctx):
     ma, mcr = common.run_lines(driver, mlines)
     model = dict(zip(midx, ma))
 
-    concrete, corr, known_hits = [], [], []
+    concrete, corr = [], []
+    former_d7 = 0
     kinds, enc_status = {}, {}
     nontrivial = set()
     tags_seen, attrs_seen = {}, {}
@@ -147,8 +142,9 @@ def run(ctx):
         tg, at = c06_tree.tokens_used(nodes)
         tags_seen.setdefault(real_lid, set()).update(tg)
         attrs_seen.setdefault(real_lid, set()).update(at)
+        if o[1] == 1 and o[2] == 0 and c06_tree.d7_shape(nodes):
+            former_d7 += 1
         if v:
-            # finding D7 (string-table entry trimmed in place) was repaired in /repo (6829a7f): its shape is an ordinary violation now
             concrete.append({"input": line, "lang": real_lid, "kind": kind, "options": {"version": o[0], "use_strtbl": o[1], "keep_ws": o[2], "anonymous": o[3]},
                              "oracle": v[:4], "c": ca[i].partition(" | ")[2][:4000]})
         else:
@@ -180,18 +176,11 @@ def run(ctx):
         "correspondence_disagreements": len(corr),
         "oracle_judged": len(jobs),
         "oracle_failures": len(concrete),
-        "pending_finding_D7_cases": len(known_hits),
+        "cases_of_the_former_D7_shape": former_d7,
         "c07_sources_with_all_16_option_tuples_equal": full_cross,
     })
 
     # ---- verdict -----------------------------------------------------------------------------
-    if known_hits:
-        key = "D7-strtbl-trimmed-entry"
-        if not ctx.report_known(key):
-            print("KNOWN-FINDING: property=%s %s [pending registration; %d cases, e.g. replay of input %s...]"
-                  % (PID, PENDING[key], len(known_hits), known_hits[0]["input"][:60]), flush=True)
-            ctx.known_hits.append(key)
-        ctx.coverage["pending_finding_example"] = known_hits[0]
     for v in concrete[:5]:
         ctx.violation("c-violates-oracle", {"replay_cmd": "bin/check C06 --replay <this file>", **v})
     if not concrete:
@@ -200,16 +189,7 @@ def run(ctx):
                                            "broken_at": cres.get("broken_at"), "forbidden": bad, "log_tail": cres["log"][-3000:],
                                            "search": "oracle run on %d encoded cases found no failing input" % len(jobs)}, found_input=False)
         if corr:
-            hint = None
-            try:
-                if all(c.get("input") and c["input"].split()[2:4] == ["1", "0"] and
-                       c06_tree.d7_shape(c06_tree.parse_dump(ca[[x[0] for x in cases].index(c["input"])].partition(" | ")[0][5:])[1])
-                       for c in corr[:50] if "model" in c):
-                    hint = ("every disagreeing case has the shape of finding D7 and the C's output now satisfies the oracle: the repository "
-                            "seems to contain the D7 repair; the model must follow it (apply props/C06/model-after-D7-fix.patch and drop PENDING)")
-            except Exception:
-                pass
             ctx.violation("correspondence-broken", {"broken": "model EncWbxml.v and the C disagree; the C still satisfies the oracle on every generated case",
-                                                    "hint": hint, "first_cases": corr[:5]}, found_input=False)
+                                                    "first_cases": corr[:5]}, found_input=False)
     elif corr:
         ctx.coverage["note"] = "model/C disagreements also present: %d" % len(corr)
